@@ -292,3 +292,34 @@ def write_v2_windows(fn, retunes, off=0.0, T=10, F=8, ants=('m000', 'm001'), t0=
     for d, c in retunes:
         dump_centre[d:] = c
     return st, cps, ts, dump_centre
+
+
+def relabel_h5(fn, fmt, st):
+    """Replace the stored samples of an MVF v2 / v3 file written by write_v2 / write_v3 (without duplicate final dump) by
+    the given labelled arrays (a slice along time of labelled(total rows, F, B)): files that are opened TOGETHER
+    (katdal.open of a list) then carry injective labels across the whole concatenated time axis."""
+    with h5py.File(fn, 'r+') as f:
+        def put(path, arr):
+            assert f[path].shape == arr.shape, (path, f[path].shape, arr.shape)
+            f[path][...] = arr
+        put('Data/correlator_data', np.stack([st['vis'].real, st['vis'].imag], axis=-1).astype(np.float32))
+        if fmt == 'v2':
+            put('Markup/flags', st['flags'])
+            put('Markup/weights', st['w_v2'])
+        else:
+            put('Data/flags', st['flags'])
+            put('Data/weights', st['w_lo'])
+            put('Data/weights_channel', st['w_hi'])
+
+
+def set_bls_ordering(fn, fmt, cps):
+    """Rewrite the product ordering of an MVF v2 / v3 file (same antennas, another ordering = another subarray)."""
+    with h5py.File(fn, 'r+') as f:
+        g = f['MetaData/Configuration/Correlator'] if fmt == 'v2' else f['TelescopeModel/cbf']
+        assert len(g.attrs['bls_ordering']) == len(cps)
+        g.attrs['bls_ordering'] = np.array(cps, dtype='S')
+
+
+def slice_labelled(st, a, b):
+    """Rows a:b of every labelled array."""
+    return dict((k, v[a:b]) for k, v in st.items())
